@@ -158,6 +158,16 @@ func (s *system) Apply(raw json.RawMessage) []seqx.Viol {
 		}
 	}
 	defer func() { s.step++ }()
+	if ref.Name == "all shards unload (idle timeout)" {
+		// what the idle timer does to every loaded shard: the next request has to load its shard
+		// again, whatever kind of request it is (an insert, a search - or a delete)
+		for i, nd := range s.nodes {
+			if s.alive[i] {
+				nd.VerifShardManager().VerifCloseAllShards()
+			}
+		}
+		return nil
+	}
 	n := s.entry(s.step)
 	if s.userNodeDown() {
 		return nil // the collection record itself is unreachable: nothing is claimed
@@ -571,7 +581,7 @@ func (s *system) Close() {
 }
 
 func master(cfg *harness.Config, rep *harness.Report) {
-	rep.Rule = "deployments: 1-3 real in-process nodes (RPC over loopback, RpcRetries 1) x MaxShardPointCount {1,2} x placement seeds (deterministic shard-uuid streams; the evidence lists the distinct shard->server patterns seen) x {all servers up, server k closed before step j, all servers up but every cached RPC connection broken from step j on}; every history up to the depth over {insert 2, insert 3, (one deployment with 30 points per shard: insert 90,) update 1 existing + 1 unknown, delete 1 existing + 1 unknown, delete all}, each request entering through the next live node in rotation. After every request, through EVERY live node: each id is found exactly once iff stored, with its document; filter search for limit {1,2,100} x offset {0,1} x sort {none, asc, desc}: <= limit, no duplicate, every result a stored point, globally sorted, exact set when limit covers the matches, exactly `limit` results when every shard alone could fill the page; flat search globally ordered by hybrid score; update/delete failure lists = requested ids no shard processed, 'not found' iff every shard answered"
+	rep.Rule = "deployments: 1-3 real in-process nodes (RPC over loopback, RpcRetries 1) x MaxShardPointCount {1,2} x placement seeds (deterministic shard-uuid streams; the evidence lists the distinct shard->server patterns seen) x {all servers up, server k closed before step j, all servers up but every cached RPC connection broken from step j on}; every history up to the depth over {insert 2, insert 3, (one deployment with 30 points per shard: insert 90,) update 1 existing + 1 unknown, delete 1 existing + 1 unknown, delete all, all shards unload (what the idle timer does: the next request of whatever kind loads its shard again)}, each request entering through the next live node in rotation. After every request, through EVERY live node: each id is found exactly once iff stored, with its document; filter search for limit {1,2,100} x offset {0,1} x sort {none, asc, desc}: <= limit, no duplicate, every result a stored point, globally sorted, exact set when limit covers the matches, exactly `limit` results when every shard alone could fill the page; flat search globally ordered by hybrid score; update/delete failure lists = requested ids no shard processed, 'not found' iff every shard answered"
 	rep.Assumptions = []string{"ids unique per collection (the API's precondition)", "the offset heuristic is not claimed exact", "when the user's own routing node is down nothing is claimed (the collection record is unreachable)", "a search with a shard server down may fail as a whole"}
 	p := pool.New(pool.Options{CPUsPerWorker: 2, JobTimeout: 180 * time.Second, NetNS: true})
 	if cfg.Replay != "" {
@@ -582,7 +592,7 @@ func master(cfg *harness.Config, rep *harness.Report) {
 		seqx.ReplayOne(rep, p, r)
 		return
 	}
-	alpha := []any{opRef{"insert 2"}, opRef{"insert 3"}, opRef{"update 1 existing + 1 unknown"}, opRef{"delete 1 existing + 1 unknown"}, opRef{"delete all"}}
+	alpha := []any{opRef{"insert 2"}, opRef{"insert 3"}, opRef{"update 1 existing + 1 unknown"}, opRef{"delete 1 existing + 1 unknown"}, opRef{"delete all"}, opRef{"all shards unload (idle timeout)"}}
 	depth := 3
 	seeds := []int64{1, 2, 3}
 	if !cfg.Quick() {
